@@ -481,7 +481,7 @@ pub fn gen_blocking(sim: &mut Sim) -> Program {
     pool.push(other_keep);
     let other = if g.sim.flip("other_stateless", 1, 2) { g.stateless_on(other) } else { other };
     let both_seq = feeder.order == Order::Seq && other.order == Order::Seq;
-    let w = [4, 4, 3, 3, 3, 2, if both_seq { 3 } else { 0 }, 3, 3, 2, 2];
+    let w = [4, 4, 3, 3, 3, 2, if both_seq { 3 } else { 0 }, 3, 8, 2, 2];
     let out = match g.sim.weighted("consumer", &w) {
         0 => {
             let (pp, pn) = (pers(g.sim), pers(g.sim));
@@ -527,10 +527,32 @@ pub fn gen_blocking(sim: &mut Sim) -> Program {
             // a `#singleton` reference to the folded feeder
             let f0 = g.f_ord(feeder.order, cl::N_FOLD_COMM, cl::N_FOLD);
             let p = pers(g.sim);
-            let folded = g.node_on(Op::Fold { p, f: f0 }, feeder, Order::Seq, true);
-            let h = g.push(Op::HoffSingleton, vec![folded.src]);
+            let h = match g.sim.weighted("ref_kind", &[2, 2, 1]) {
+                0 => {
+                    let folded = g.node_on(Op::Fold { p, f: f0 }, feeder, Order::Seq, true);
+                    g.push(Op::HoffSingleton, vec![folded.src])
+                }
+                1 => {
+                    let fr = g.f_ord(feeder.order, cl::N_REDUCE_COMM, cl::N_REDUCE);
+                    let red = g.node_on(Op::Reduce { p, f: fr }, feeder, Order::Seq, true);
+                    g.push(Op::HoffOptional, vec![red.src])
+                }
+                _ => g.push(Op::HoffVec, vec![feeder.src]),
+            };
+            // the slot may also have a pipe consumer (which must run after the reader)
+            if g.sim.flip("ref_pipe_consumer", 1, 2) {
+                let ord = if matches!(g.nodes[h].op, Op::HoffVec) { Order::Bag } else { Order::Seq };
+                g.sink(Open { src: Src { node: h, port: 0 }, order: ord, single: false });
+            }
+            // the reader sits in a subgraph of its own (see FINDINGS F1/F3 for the shared-subgraph shapes)
+            let iso = g.push(Op::HoffVec, vec![other.src]);
+            let other = Open { src: Src { node: iso, port: 0 }, ..other };
             let f = g.f(cl::N_REF);
-            g.node_on(Op::RefMap { target: h, group: 0, write: false, f }, other, other.order, false)
+            let r = g.node_on(Op::RefMap { target: h, group: 0, write: false, f }, other, other.order, false);
+            // ... and ends in its own sink
+            g.sink(r);
+            let k = g.sim.choose("post_src", 0, pool.len() as u64 - 1) as usize;
+            pool.remove(k)
         }
         9 => {
             let (pl, pr) = (pers(g.sim), pers(g.sim));
@@ -572,6 +594,8 @@ pub fn gen_defer(sim: &mut Sim) -> Program {
         cur = Open { src: Src { node: u, port: 0 }, order: Order::Bag, single: false };
     }
     let n_defer = g.sim.choose("n_defer", 1, 4);
+    let mix = g.sim.flip("mix_lazy", 1, 2);
+    let lazy_first = g.sim.flip("lazy_first", 1, 2);
     let mut placed = 0;
     let steps = n_defer + g.sim.choose("extra_steps", 0, 4);
     for s in 0..steps {
@@ -608,7 +632,9 @@ pub fn gen_defer(sim: &mut Sim) -> Program {
             }
             2 => {
                 placed += 1;
-                if g.sim.flip("lazy", 1, 3) { g.node_on(Op::DeferTickLazy, cur, Order::Bag, cur.single) } else { g.node_on(Op::DeferTick, cur, Order::Bag, cur.single) }
+                // with >= 2 defers, half of the programs alternate lazy / non-lazy (either order first)
+                let lazy = if mix && n_defer >= 2 { (placed % 2 == 1) == lazy_first } else { g.sim.flip("lazy", 1, 3) };
+                if lazy { g.node_on(Op::DeferTickLazy, cur, Order::Bag, cur.single) } else { g.node_on(Op::DeferTick, cur, Order::Bag, cur.single) }
             }
             3 => {
                 // observe the stream at this point
@@ -798,6 +824,27 @@ impl LoopB<'_, '_> {
         let lazy = self.g.sim.flip("loop_fb_lazy", 1, 4);
         let back = self.g.node_on(if lazy { Op::DeferTickLazy } else { Op::DeferTick }, d, Order::Bag, false);
         self.g.nodes[u].ins[fb_port] = back.src;
+        // further feedback cycles of a different length through the same loop: a two-hop
+        // defer_tick -> defer_tick cycle, and a defer_tick_lazy cycle next to the non-lazy ones
+        let mut a = a;
+        if self.g.sim.flip("loop_fb_second", 1, 2) {
+            let (a2, b2) = self.g.tee2(a);
+            a = a2;
+            let d2 = self.g.node_on(Op::Decay, b2, Order::Bag, false);
+            let d2 = self.g.node_on(Op::Decay, d2, Order::Bag, false);
+            let h1 = self.g.node_on(Op::DeferTick, d2, Order::Bag, false);
+            let h1 = self.g.node_on(Op::Identity, h1, Order::Bag, false);
+            let h2 = self.g.node_on(Op::DeferTick, h1, Order::Bag, false);
+            self.g.nodes[u].ins.push(h2.src);
+        }
+        if !lazy && self.g.sim.flip("loop_fb_lazy_extra", 1, 2) {
+            let (a3, b3) = self.g.tee2(a);
+            a = a3;
+            let d3 = self.g.node_on(Op::Decay, b3, Order::Bag, false);
+            let d3 = self.g.node_on(Op::Filter { f: 0 }, d3, Order::Bag, false);
+            let h3 = self.g.node_on(Op::DeferTickLazy, d3, Order::Bag, false);
+            self.g.nodes[u].ins.push(h3.src);
+        }
         self.mark(Some(l));
         a
     }
@@ -1117,4 +1164,51 @@ pub fn gen_no_replay_pair(sim: &mut Sim, reduce: bool) -> Vec<(String, Program)>
         Program { kind: kind.to_string(), nodes, n_chans: 1, sink_order: vec![Order::Seq], n_inspect: 0, emit_order: (0..n).collect(), loops: vec![], node_loop: vec![], n_refs: 0 }
     };
     vec![("pull".to_string(), build(0)), ("push_tee".to_string(), build(1)), ("pull_union".to_string(), build(2)), ("push_identity".to_string(), build(3))]
+}
+
+/// Every stateful unary operator x persistence of the catalogue.
+pub fn stateful_catalogue(sim: &mut Sim) -> Vec<Op> {
+    use Pers::{Static, Tick};
+    let mut v = vec![Op::Persist, Op::MultisetDelta, Op::Sort];
+    for p in [Tick, Static] {
+        v.push(Op::Unique { p });
+        v.push(Op::Enumerate { p });
+        v.push(Op::Fold { p, f: sim.choose("f", 0, cl::N_FOLD as u64 - 1) as u8 });
+        v.push(Op::Reduce { p, f: sim.choose("f", 0, cl::N_REDUCE as u64 - 1) as u8 });
+        v.push(Op::FoldKeyed { p, f: sim.choose("f", 0, cl::N_KEYED as u64 - 1) as u8 });
+        v.push(Op::ReduceKeyed { p, f: sim.choose("f", 0, cl::N_KEYED as u64 - 1) as u8 });
+        v.push(Op::Scan { p, f: sim.choose("f", 0, cl::N_SCAN as u64 - 1) as u8 });
+    }
+    v.push(Op::SortByKey { f: 0 });
+    v.push(Op::SortByKey { f: 1 });
+    v
+}
+
+/// Systematic coverage: program `k` of the slice realises `n_ops` consecutive catalogue operators,
+/// each one twice on the same input: push-side (directly behind a 2-output tee) and pull-side
+/// (behind an explicit handoff()), each with its own sink. Over the slice every stateful operator x
+/// persistence runs on both sides over multi-tick histories.
+pub fn gen_both_sides(sim: &mut Sim, k: usize, n_ops: usize) -> Program {
+    let cat = stateful_catalogue(sim);
+    let mut g = G::new(sim);
+    for j in 0..n_ops {
+        let op = cat[(k * n_ops + j) % cat.len()].clone();
+        let src = g.new_source();
+        let src = if g.sim.flip("pre", 1, 2) { g.stateless_on(src) } else { src };
+        let t = g.push(Op::Tee, vec![src.src]);
+        let out_order = |o: &Op| match o {
+            Op::Persist | Op::FoldKeyed { .. } | Op::ReduceKeyed { .. } => Order::Bag,
+            Op::SortByKey { f } => Order::KeySorted(*f),
+            Op::Sort => Order::Seq,
+            _ => src.order,
+        };
+        // push side
+        let x = g.push(op.clone(), vec![Src { node: t, port: 0 }]);
+        g.sink(Open { src: Src { node: x, port: 0 }, order: out_order(&op), single: false });
+        // pull side
+        let h = g.push(Op::HoffVec, vec![Src { node: t, port: 1 }]);
+        let y = g.push(op.clone(), vec![Src { node: h, port: 0 }]);
+        g.sink(Open { src: Src { node: y, port: 0 }, order: out_order(&op), single: false });
+    }
+    g.finish("both_sides")
 }
